@@ -125,13 +125,13 @@ def plan(ctx):
         if ctx.quick:
             sel = fam.select(pool, 14, ctx.seed, name) + special
         else:
-            sel = fam.select(pool, 70, ctx.seed, name) + special + fam.random_args(ctx.seed, 10)
+            sel = fam.select(pool, 40, ctx.seed, name) + special + fam.random_args(ctx.seed, 8)
         # the first arguments are explored with both option flags symbolic (4 x the classes of k)
         sel = list(dict.fromkeys(special[:4] + sel))
         nchunk = 2 if ctx.quick else 4
         for c in range(nchunk):
             # every chunk starts with its share of the fixed specials (explored with symbolic options)
-            units.append((name, sel[c::nchunk], ctx.seed, 120 if ctx.quick else 600, 40 if ctx.quick else 120,
+            units.append((name, sel[c::nchunk], ctx.seed, 120 if ctx.quick else 600, 40 if ctx.quick else 80,
                           2 if ctx.quick else 3))
     return units
 
@@ -169,12 +169,12 @@ def run(ctx):
         pairs=pairs, longest_proof=maxlen, skipped_longer_than_bound=skipped[:40],
         skipped_count=len(skipped),
         bounds=dict(arguments='examples + modal + first-order shapes (families/args.py), '
-                    + ('14 per logic by seed + 9 fixed' if ctx.quick else '70 per logic by seed + 9 fixed + 10 random'),
+                    + ('14 per logic by seed + 9 fixed' if ctx.quick else '40 per logic by seed + 9 fixed + 8 random'),
                     step_limit='k ranges over all integers (symbolic); one class per prefix',
                     options=f'is_group_optim / is_rank_optim symbolic on the first {4 if ctx.quick else 12} '
                             'arguments per logic, defaults elsewhere',
                     api='explicit step() loop (what build() does), return values compared with the history',
-                    proof_length=f'natural length <= {40 if ctx.quick else 120} steps',
+                    proof_length=f'natural length <= {40 if ctx.quick else 80} steps',
                     order_seed=ctx.seed),
         solver=dict(queries=queries, solver_time_s=round(st_time, 2)),
         functions_executed=['Tableau.__init__/logic/argument setters/build_trunk/step/next/finish',
